@@ -185,7 +185,7 @@ func TestC10(t *testing.T) {
 			return
 		}
 		m.Eval()
-		if sp := sodiumnacl.ScalarMultBase(skA); sp != *pkA || x25519big.X25519(skA, &x25519big.Base) != *pkA {
+		if sp := sodiumnacl.ScalarMultBase(skA); sp != *pkA || (i%8 == 0 && x25519big.X25519(skA, &x25519big.Base) != *pkA) {
 			m.Violation("box-generatekey-public-key-mismatch", map[string]any{"sk": mon.FullHex(skA[:]), "pk": mon.FullHex(pkA[:]), "libsodium": mon.FullHex(sp[:])})
 		}
 		m.Count("generatekey_checked:box", 1)
